@@ -79,6 +79,13 @@ def replay_graph(ctx, binary, e1_cfg, obs_cfg, minwork, relevant, nontrivial_act
         if any(a in nontrivial_actions for a in acts):
             ctx.nontrivial.add(vflib.digest([s["a"] for s in p["steps"]]))
     ctx.log("E1 %s: %d states, %d transitions -> %d paths, %d steps" % (e1_cfg, len(g.nodes), g.nedges, len(paths), sum(len(p["steps"]) for p in paths)))
+    cap = int(os.environ.get("VERIF_MAX_PATHS", "24000"))
+    if len(paths) > cap:
+        import random
+        keep = sorted(random.Random(ctx.seed).sample(range(len(paths)), cap))
+        ctx.extra.setdefault("replay_sampled", {})[e1_cfg] = dict(paths_in_cover=len(paths), paths_replayed=cap)
+        ctx.assumptions.append("%s: %d of the %d paths of the transition cover replayed (seeded sample)" % (e1_cfg, cap, len(paths)))
+        paths = [paths[i] for i in keep]
     mid = paths[len(paths) // 2]
     ctx.sample(dict(actions=[s["a"] for s in mid["steps"]], expected_final=mid["steps"][-1]["exp"]["obs"]))
     res = ctx.run_harness(binary, "replay", paths, args=[minwork], name=e1_cfg[:-4])
